@@ -483,6 +483,10 @@ def _lt(left: object, right: object) -> bool:
     if isinstance(left, str) and isinstance(right, str):
         return left < right
 
+    # Remember bool is a subclass of int in Python. Booleans are never ordered.
+    if isinstance(left, bool) or isinstance(right, bool):
+        return False
+
     if isinstance(left, (int, float)) and isinstance(right, (int, float)):
         return left < right
 
